@@ -67,6 +67,9 @@ Proof.
   destruct (schunks s); inversion E; reflexivity.
 Qed.
 
+Section WithX.
+Variable X : list (nat * bytes).
+
 (* ---------- the invariant ---------- *)
 Definition rowned (st : hreader) : list nat :=
   match rbuf st with Some s => if rro st then [] else [sblk s] | None => [] end ++ map sblk (rpend st).
@@ -84,7 +87,7 @@ Definition live_ok (S : bytes) (st : hreader) (h : heap) (l : lslice) : Prop :=
   end.
 
 Record rinv (S : bytes) (st : hreader) (e : env) : Prop := mkrinv {
-  rv_e : einv (rowned st) [] (rcaller st) e;
+  rv_e : einv X (rowned st) [] (rcaller st) e;
   rv_S : sdata (rsrc st) = S /\ spos (rsrc st) <= len S;
   rv_buf : match rbuf st with
            | Some s =>
@@ -118,12 +121,12 @@ Qed.
 
 (* anything that leaves the footprint alone preserves the invariant *)
 Lemma rinv_frame S st e e' :
-  rinv S st e -> einv (rowned st) [] (rcaller st) e' -> frame (rowned st ++ [] ++ rcaller st) e e' ->
+  rinv S st e -> einv X (rowned st) [] (rcaller st) e' -> frame (rowned st ++ [] ++ rcaller st) e e' ->
   rinv S st e'.
 Proof.
   intros Hi He [Hs Hl]. destruct Hi as [Ie IS Ib Ip Il Ic].
   assert (Hvalid : forall b, In b (rowned st ++ [] ++ rcaller st) -> (b < length (wh (ew e)))%nat).
-  { intros b Hb. destruct Ie as [_ [_ Sv _] _]. rewrite Forall_forall in Sv. now apply Sv. }
+  { intros b Hb. destruct (einv_sep3 _ _ _ _ Ie) as [_ Sv _]. rewrite Forall_forall in Sv. now apply Sv. }
   assert (Hcur : forall s, rbuf st = Some s -> In (sblk s) (rowned st ++ [] ++ rcaller st)).
   { intros s Hb. rewrite Hb in Ib. rewrite !in_app_iff. destruct (rro st) eqn:Er.
     - right. right. tauto.
@@ -162,7 +165,7 @@ Proof.
   assert (Hrow : rowned (set_err_src st (Some (mkS (sblk s) (soff s) (sln s + len bs) (scp s))) err src') = rowned st).
   { unfold rowned, set_err_src. cbn [rbuf rro rpend]. rewrite Hb. reflexivity. }
   (* the write itself *)
-  assert (Hw : einv (rowned st) [] (rcaller st) (e_write e0 (sblk s) (soff s + sln s) bs) /\
+  assert (Hw : einv X (rowned st) [] (rcaller st) (e_write e0 (sblk s) (soff s + sln s) bs) /\
                block (wh (ew (e_write e0 (sblk s) (soff s + sln s) bs))) (sblk s)
                  = splice (block (wh (ew e0)) (sblk s)) (soff s + sln s) bs /\
                (forall b', b' <> sblk s -> block (wh (ew (e_write e0 (sblk s) (soff s + sln s) bs))) b' = block (wh (ew e0)) b') /\
@@ -175,7 +178,7 @@ Proof.
   destruct Hw as (W1 & W2 & W3 & [W4 W5]).
   set (e1 := e_write e0 (sblk s) (soff s + sln s) bs) in *.
   assert (Hvalid : forall b, In b (rowned st ++ [] ++ rcaller st) -> (b < length (wh (ew e0)))%nat).
-  { intros b Hb'. destruct Ie as [_ [_ Sv _] _]. rewrite Forall_forall in Sv. now apply Sv. }
+  { intros b Hb'. destruct (einv_sep3 _ _ _ _ Ie) as [_ Sv _]. rewrite Forall_forall in Sv. now apply Sv. }
   assert (Hcurv : (sblk s < length (wh (ew e0)))%nat).
   { apply Hvalid. rewrite !in_app_iff. destruct (rro st) eqn:Ero; [right; right; tauto|left; now apply In_rowned_cur]. }
   split.
@@ -282,7 +285,7 @@ Record rshape (S : bytes) (st : hreader) (h : heap) : Prop := mkrshape {
 }.
 Lemma rinv_shape S st e : rinv S st e -> rshape S st (wh (ew e)).
 Proof. intros [A B C D E F]. split; assumption. Qed.
-Lemma rinv_of S st e : einv (rowned st) [] (rcaller st) e -> rshape S st (wh (ew e)) -> rinv S st e.
+Lemma rinv_of S st e : einv X (rowned st) [] (rcaller st) e -> rshape S st (wh (ew e)) -> rinv S st e.
 Proof. intros A [B C D E F]. split; assumption. Qed.
 
 Lemma rshape_frame S st h h' :
@@ -309,7 +312,7 @@ Qed.
 
 Lemma rinv_valid S st e b : rinv S st e -> In b (rowned st ++ rcaller st) -> (b < length (wh (ew e)))%nat.
 Proof.
-  intros Hi Hb. destruct (rv_e _ _ _ Hi) as [_ [_ Sv _] _]. rewrite Forall_forall in Sv. apply Sv. exact Hb.
+  intros Hi Hb. destruct (einv_sep3 _ _ _ _ (rv_e _ _ _ Hi)) as [_ Sv _]. rewrite Forall_forall in Sv. apply Sv. exact Hb.
 Qed.
 
 (* phase 1 of acquireSlow: the first buffer *)
@@ -382,7 +385,7 @@ Proof.
   - assert (Hsame : forall b, In b (rowned st ++ rcaller st) -> block (wh (ew e3)) b = block (wh (ew e')) b).
     { intros b Hx. rewrite W3; [now rewrite R2|]. intros ->. tauto. }
     split; cbn [set_buf rsrc rbuf rri rro rpend rlive rcur rcaller sblk soff sln scp]; try assumption.
-    + rewrite W5 by (rewrite R2; destruct A1 as [_ [_ Sv _] _]; inversion Sv; assumption).
+    + rewrite W5 by (rewrite R2; destruct (einv_sep3 _ _ _ _ A1) as [_ Sv _]; inversion Sv; assumption).
       rewrite R2, A3. pose proof (pow2ceil_pos ncap). pose proof (pow2ceil_ge ncap). repeat split; lia.
     + unfold pd. assert (Hp' : Forall (whole (wh (ew e3))) (rpend st)).
       { rewrite Forall_forall in *. intros p Hp. specialize (Ip p Hp). unfold whole in *.
@@ -535,21 +538,21 @@ Proof.
 Qed.
 
 (* Release: every parked buffer goes back to the pool *)
-Lemma free_all_inv R : forall pd X e,
-  einv (X ++ map sblk pd) [] R e -> Forall (whole (wh (ew e))) pd ->
-  einv X [] R (free_all e pd) /\ frame (X ++ [] ++ R) e (free_all e pd).
+Lemma free_all_inv R : forall pd Y e,
+  einv X (Y ++ map sblk pd) [] R e -> Forall (whole (wh (ew e))) pd ->
+  einv X Y [] R (free_all e pd) /\ frame (Y ++ [] ++ R) e (free_all e pd).
 Proof.
-  induction pd as [|p pd IH]; intros X e Hi Hw; cbn [free_all map].
+  induction pd as [|p pd IH]; intros Y e Hi Hw; cbn [free_all map].
   - rewrite app_nil_r in Hi. split; [assumption|apply frame_refl].
   - cbn [map] in Hi. inversion Hw as [|? ? Hp Hr]; subst. destruct Hp as (P1 & P2 & P3).
-    assert (Hi' : einv (sblk p :: X ++ map sblk pd) [] R e).
+    assert (Hi' : einv X (sblk p :: Y ++ map sblk pd) [] R e).
     { eapply einv_perm; [|exact Hi]. apply Permutation_sym, Permutation_middle. }
     destruct (einv_free _ _ _ _ p Hi' (or_introl eq_refl) P1 P2) as (F1 & F2 & F3).
     cbn [remove1] in F1, F2. rewrite Nat.eqb_refl in F1, F2.
     assert (Hw' : Forall (whole (wh (ew (e_free e p)))) pd).
     { rewrite Forall_forall in *. intros q Hq. specialize (Hr q Hq). unfold whole in *.
       destruct F2 as [F2 _]. rewrite (F2 (sblk q)); [assumption|]. rewrite !in_app_iff. left. right. now apply in_map. }
-    destruct (IH X _ F1 Hw') as (G1 & G2). split; [assumption|].
+    destruct (IH Y _ F1 Hw') as (G1 & G2). split; [assumption|].
     eapply frame_trans; [|exact G2]. eapply frame_incl; [|exact F2].
     intros x. rewrite !in_app_iff. tauto.
 Qed.
@@ -557,20 +560,20 @@ Qed.
 Lemma h_release_inv S st e st' e' : rinv S st e -> h_release st e = (st', e') -> rinv S st' e'.
 Proof.
   intros Hi E. unfold h_release in E.
-  set (X := match rbuf st with Some s => if rro st then [] else [sblk s] | None => [] end).
-  assert (Hrow : rowned st = X ++ map sblk (rpend st)) by reflexivity.
+  set (Y := match rbuf st with Some s => if rro st then [] else [sblk s] | None => [] end).
+  assert (Hrow : rowned st = Y ++ map sblk (rpend st)) by reflexivity.
   pose proof (rv_e _ _ _ Hi) as Hie. rewrite Hrow in Hie.
   destruct (free_all_inv _ _ _ _ Hie (rv_pend _ _ _ Hi)) as (F1 & [F2 F3]).
   set (e1 := free_all e (rpend st)) in *.
-  assert (Hsub : incl (X ++ [] ++ rcaller st) (rowned st ++ rcaller st)).
+  assert (Hsub : incl (Y ++ [] ++ rcaller st) (rowned st ++ rcaller st)).
   { rewrite Hrow. intros x. rewrite !in_app_iff. cbn [In]. tauto. }
   destruct (rinv_shape _ _ _ Hi) as [IS Ib Ip Il Ic].
   assert (Hvalid : forall b, In b (rowned st ++ rcaller st) -> (b < length (wh (ew e)))%nat)
     by (intros b Hb; eapply rinv_valid; eassumption).
   destruct (rbuf st) as [s|] eqn:Hb.
   - destruct Ib as (B1 & B2 & B0 & B3 & B4). destruct Ic as [C1 C2].
-    assert (HcurX : In (sblk s) (X ++ [] ++ rcaller st)).
-    { unfold X. destruct (rro st); cbn [app In]; tauto. }
+    assert (HcurX : In (sblk s) (Y ++ [] ++ rcaller st)).
+    { unfold Y. destruct (rro st); cbn [app In]; tauto. }
     assert (Hblk : block (wh (ew e1)) (sblk s) = block (wh (ew e)) (sblk s)) by (apply F2; assumption).
     destruct (sln s - rri st =? 0) eqn:Ez.
     + apply N.eqb_eq in Ez. destruct (stat_update (rstats st) (rsidx st) (scp s)) as [bk bi].
@@ -580,7 +583,7 @@ Proof.
       * inversion E; subst; clear E. apply rinv_of; [|apply Hsh]. exact F1.
       * assert (0 <? scp s = true) as Hpos by lia. rewrite Hpos in E. inversion E; subst; clear E.
         destruct B4 as [B4a B4b].
-        assert (Hfree : einv (remove1 (sblk s) [sblk s]) [] (rcaller st) (e_free e1 s)).
+        assert (Hfree : einv X (remove1 (sblk s) [sblk s]) [] (rcaller st) (e_free e1 s)).
         { apply einv_free; [exact F1|now left|assumption|]. rewrite Hblk. assumption. }
         cbn [remove1] in Hfree. rewrite Nat.eqb_refl in Hfree.
         apply rinv_of; [exact Hfree|apply Hsh].
@@ -601,7 +604,7 @@ Proof.
         destruct (einv_write _ _ _ _ (sblk s) (soff s) v R1 (or_introl eq_refl) Hwb) as (W1 & W2 & W3 & [W4 W5]).
         apply rinv_of; [exact W1|].
         split; cbn [rbuf rsrc rri rro rpend rlive rcur rcaller sblk soff sln scp]; try assumption; try apply Forall_nil.
-        -- rewrite W5 by (rewrite R2; destruct F1 as [_ [_ Sv _] _]; inversion Sv; assumption).
+        -- rewrite W5 by (rewrite R2; destruct (einv_sep3 _ _ _ _ F1) as [_ Sv _]; inversion Sv; assumption).
            rewrite R2, Hblk. repeat split; try assumption; lia.
         -- rewrite N.add_0_r, N.sub_0_r. split; [|assumption]. rewrite <- Hlv.
            rewrite (rd_splice_at _ _ _ _ _ W2) by (rewrite R2, Hblk; lia).
@@ -639,10 +642,8 @@ Qed.
 Lemma rinv_co S st e l al adv padv :
   rinv S st e -> rinv S st (mkE (co_run (ew e) l) al adv padv (eev e)).
 Proof.
-  intros Hi. destruct (rv_e _ _ _ Hi) as [Wk Sp Mn].
-  destruct (co_run_spec l _ _ Wk Sp) as (A1 & A2 & A3 & A4).
-  eapply rinv_frame; [exact Hi| |split; assumption].
-  split; assumption.
+  intros Hi. destruct (einv_co _ _ _ _ _ l al adv padv (rv_e _ _ _ Hi)) as [A B].
+  eapply rinv_frame; eassumption.
 Qed.
 Lemma rinv_env S st e e' : ew e' = ew e -> eev e' = eev e -> rinv S st e -> rinv S st e'.
 Proof.
@@ -650,7 +651,6 @@ Proof.
   rewrite Hw. now apply rinv_shape.
 Qed.
 
-Definition env_of (w : world) (tr : list event) : env := mkE w [] [] [] tr.
 
 Lemma run_step_inv S st w tr s st' w' tr' o :
   rinv S st (env_of w tr) -> run_step (st, w, tr) s = (st', w', tr', o) -> rinv S st' (env_of w' tr').
@@ -673,27 +673,22 @@ Proof.
 Qed.
 
 (* ---------- initial states ---------- *)
-Lemma einv_init w : wok w -> einv [] [] [] (env_of w []).
-Proof.
-  intros Wk. split; cbn [env_of ew eev app]; [assumption| |].
-  - split; [constructor|constructor|intros b []].
-  - exists m0. unfold montr. cbn. repeat split; try constructor; intros [].
-Qed.
+Definition xok (w : world) : Prop := wok w /\ sep (xblocks X) w /\ xsnap X (wh w).
 
 Lemma rinv_new_reader src w :
-  wok w -> spos src = 0 -> rinv (sdata src) (new_reader src) (env_of w []).
+  xok w -> spos src = 0 -> rinv (sdata src) (new_reader src) (env_of w []).
 Proof.
-  intros Wk Hs. apply rinv_of; [exact (einv_init w Wk)|].
+  intros (Wk & Sx & Hx) Hs. apply rinv_of; [exact (einv_init X w Wk Sx Hx)|].
   split; cbn [new_reader rsrc rbuf rri rpend rlive rcur]; try apply Forall_nil; try reflexivity; try lia.
   split; [reflexivity|lia].
 Qed.
 
 Lemma rinv_new_bytes_reader w pre data spare st e :
-  wok w -> new_bytes_reader (env_of w []) pre data spare = (st, e) -> rinv data st e.
+  xok w -> new_bytes_reader (env_of w []) pre data spare = (st, e) -> rinv data st e.
 Proof.
-  intros Wk E. unfold new_bytes_reader in E. destruct (0 <? len data + len spare) eqn:Ec.
+  intros (Wk & Sx & Hx) E. unfold new_bytes_reader in E. destruct (0 <? len data + len spare) eqn:Ec.
   - destruct (e_lend (env_of w []) (pre ++ data ++ spare) true) as [e1 b] eqn:El. inversion E; subst; clear E.
-    destruct (einv_lend _ _ _ _ _ _ _ _ (einv_init w Wk) El) as (A1 & A2 & A3 & A4 & A5).
+    destruct (einv_lend _ _ _ _ _ _ _ _ (einv_init X w Wk Sx Hx) El) as (A1 & A2 & A3 & A4 & A5).
     apply rinv_of; [exact A1|].
     split; cbn [rsrc rbuf rri rro rpend rlive rcur rcaller done_source sdata spos sblk soff sln scp];
       try apply Forall_nil; try reflexivity.
@@ -701,7 +696,7 @@ Proof.
     + rewrite A3, !len_app. repeat split; try lia. now left.
     + rewrite N.add_0_r, N.sub_0_r. split; [|lia]. unfold rd, seg_at. rewrite A3.
       rewrite drop_app_len. rewrite take_app_len. cbn [drop N.to_nat skipn]. symmetry. now apply take_all.
-  - inversion E; subst; clear E. apply rinv_of; [exact (einv_init w Wk)|].
+  - inversion E; subst; clear E. apply rinv_of; [exact (einv_init X w Wk Sx Hx)|].
     split; cbn [rsrc rbuf rri rpend rlive rcur done_source sdata spos]; try apply Forall_nil; try reflexivity; try lia. split; [reflexivity|lia].
 Qed.
 
@@ -717,38 +712,43 @@ Qed.
 Lemma rinv_trace S st e : rinv S st e ->
   no_use_after_free (rev (eev e)) /\ caller_untouched (rev (eev e)) /\ frees_whole_blocks (rev (eev e)).
 Proof.
-  intros Hi. destruct (rv_e _ _ _ Hi) as [_ _ (m & Hm & _)]. eapply montr_spec; eassumption.
+  intros Hi. destruct (rv_e _ _ _ Hi) as [_ _ (m & Hm & _) _]. eapply montr_spec; eassumption.
 Qed.
+
+End WithX.
+
+Lemma xok_nil w : wok w -> xok [] w.
+Proof. intros Wk. split; [assumption|split; [|constructor]]. split; [constructor|constructor|intros b []]. Qed.
 
 Theorem reader_slices_stable src w0 h st w tr outs :
   wok w0 -> spos src = 0 -> run (new_reader src, w0, []) h = (st, w, tr, outs) ->
   live_intact (sdata src) st w.
 Proof.
-  intros Wk Hs E. pose proof (run_inv _ _ _ _ _ _ _ _ _ (rinv_new_reader src w0 Wk Hs) E) as Hi.
-  exact (rinv_live _ _ _ Hi).
+  intros Wk Hs E. pose proof (run_inv [] _ _ _ _ _ _ _ _ _ (rinv_new_reader [] src w0 (xok_nil w0 Wk) Hs) E) as Hi.
+  exact (rinv_live [] _ _ _ Hi).
 Qed.
 Theorem bytes_reader_slices_stable w0 pre data spare st0 e0 h st w tr outs :
   wok w0 -> new_bytes_reader (env_of w0 []) pre data spare = (st0, e0) ->
   run (st0, ew e0, eev e0) h = (st, w, tr, outs) ->
   live_intact data st w.
 Proof.
-  intros Wk E0 E. pose proof (rinv_new_bytes_reader _ _ _ _ _ _ Wk E0) as Hi0.
-  assert (Hi0' : rinv data st0 (env_of (ew e0) (eev e0))) by (eapply rinv_env; [| |exact Hi0]; reflexivity).
-  pose proof (run_inv _ _ _ _ _ _ _ _ _ Hi0' E) as Hi. exact (rinv_live _ _ _ Hi).
+  intros Wk E0 E. pose proof (rinv_new_bytes_reader [] _ _ _ _ _ _ (xok_nil w0 Wk) E0) as Hi0.
+  assert (Hi0' : rinv [] data st0 (env_of (ew e0) (eev e0))) by (eapply rinv_env; [| |exact Hi0]; reflexivity).
+  pose proof (run_inv [] _ _ _ _ _ _ _ _ _ Hi0' E) as Hi. exact (rinv_live [] _ _ _ Hi).
 Qed.
 Theorem reader_trace_ok src w0 h st w tr outs :
   wok w0 -> spos src = 0 -> run (new_reader src, w0, []) h = (st, w, tr, outs) ->
   no_use_after_free (rev tr) /\ caller_untouched (rev tr) /\ frees_whole_blocks (rev tr).
 Proof.
-  intros Wk Hs E. pose proof (run_inv _ _ _ _ _ _ _ _ _ (rinv_new_reader src w0 Wk Hs) E) as Hi.
-  exact (rinv_trace _ _ _ Hi).
+  intros Wk Hs E. pose proof (run_inv [] _ _ _ _ _ _ _ _ _ (rinv_new_reader [] src w0 (xok_nil w0 Wk) Hs) E) as Hi.
+  exact (rinv_trace [] _ _ _ Hi).
 Qed.
 Theorem bytes_reader_trace_ok w0 pre data spare st0 e0 h st w tr outs :
   wok w0 -> new_bytes_reader (env_of w0 []) pre data spare = (st0, e0) ->
   run (st0, ew e0, eev e0) h = (st, w, tr, outs) ->
   no_use_after_free (rev tr) /\ caller_untouched (rev tr) /\ frees_whole_blocks (rev tr).
 Proof.
-  intros Wk E0 E. pose proof (rinv_new_bytes_reader _ _ _ _ _ _ Wk E0) as Hi0.
-  assert (Hi0' : rinv data st0 (env_of (ew e0) (eev e0))) by (eapply rinv_env; [| |exact Hi0]; reflexivity).
-  pose proof (run_inv _ _ _ _ _ _ _ _ _ Hi0' E) as Hi. exact (rinv_trace _ _ _ Hi).
+  intros Wk E0 E. pose proof (rinv_new_bytes_reader [] _ _ _ _ _ _ (xok_nil w0 Wk) E0) as Hi0.
+  assert (Hi0' : rinv [] data st0 (env_of (ew e0) (eev e0))) by (eapply rinv_env; [| |exact Hi0]; reflexivity).
+  pose proof (run_inv [] _ _ _ _ _ _ _ _ _ Hi0' E) as Hi. exact (rinv_trace [] _ _ _ Hi).
 Qed.
